@@ -175,7 +175,7 @@ def replay(w, ctx):
 def floors(m, tier):
     out = []
     c, cov = m['counters'], m['cover']
-    need = 15000 if tier == 'quick' else 300000
+    need = 8000 if tier == 'quick' else 200000
     if c.get('files_loaded', 0) < need:
         out.append('only %d files loaded' % c.get('files_loaded', 0))
     for k in ('tie_at_start', 'tie_at_end', 'tie_in_middle', 'whole_list_tied', 'empty_first_side_list', 'empty_second_side_list',
